@@ -279,33 +279,58 @@ for it in range(nframes):
         origin = rng.normal(size=3) * 10.0 ** rng.integers(-2, 2)
     i_hat, j_hat = m[0].copy(), m[1].copy()
     cs = g.CoordinateSystem(origin, i_hat, j_hat)
-    shape = SHAPES[int(rng.integers(0, len(SHAPES)))]
-    coords = dyadic(shape + (3,)) if exact else rng.normal(size=shape + (3,))
-    fr = cs.convert_from_gcs(g.Points(coords.copy())).coords
-    to = cs.convert_to_gcs(g.Points(coords.copy())).coords
-    bm = cs.basis_matrix
-    k_hat = np.cross(i_hat, j_hat)
-    evaluations += 3
-    if not (np.array_equal(bm[:, 0], i_hat) and np.array_equal(bm[:, 1], j_hat) and np.allclose(bm[:, 2], k_hat, atol=1e-15)):
-        chk.violation("cs-basis-matrix", "basis_matrix does not store i_hat, j_hat, k_hat in columns",
-                      dict(origin=origin, i_hat=i_hat, j_hat=j_hat, basis_matrix=bm, predicate="columns = (i, j, i x j)"), True)
-    back = cs.convert_from_gcs(g.Points(to)).coords
-    sc = max(1.0, float(np.max(np.abs(origin))))
-    if not np.allclose(back, coords, rtol=0, atol=1e-11 * sc):
-        chk.violation("cs-roundtrip", "convert_from_gcs(convert_to_gcs(x)) != x",
-                      dict(origin=origin, i_hat=i_hat, j_hat=j_hat, coords=coords, predicate="round trip"), True)
-    back = cs.convert_to_gcs(g.Points(fr)).coords
-    if not np.allclose(back, coords, rtol=0, atol=1e-11 * sc):
-        chk.violation("cs-roundtrip2", "convert_to_gcs(convert_from_gcs(x)) != x",
-                      dict(origin=origin, i_hat=i_hat, j_hat=j_hat, coords=coords, predicate="round trip"), True)
-    chk.count(cs="E" if exact else "T")
-    for c, a, b in zip(coords.reshape(-1, 3), fr.reshape(-1, 3), to.reshape(-1, 3)):
-        for fn, out in (("cs_from", a), ("cs_to", b)):
-            cs_lines.append(fn + " " + hexs(origin) + " " + hexs(i_hat) + " " + hexs(j_hat) + " " + hexs(c))
-            cs_meta.append(dict(fn=fn, origin=flist(origin), i_hat=flist(i_hat), j_hat=flist(j_hat), c=flist(c), impl=flist(out), exact=exact))
-        if exact:
-            cs_coq.append((cpair(cpair(cv3(origin), cv3(i_hat), cv3(j_hat), cv3(c)), cpair(cv3(a), cv3(b))), cs_meta[-1]))
-        nontrivial.add(("cs", it, tuple(flist(c))))
+    # stage 1 is a HISTORY on the same CoordinateSystem object: after it has been used, its vectors / origin
+    # are re-assigned through the public setters and it is used again -> it must behave as a fresh one
+    for stage in (0, 1):
+        if stage == 1:
+            if rng.random() < 0.4:
+                break
+            what_ = int(rng.integers(0, 3))
+            k_old = np.cross(i_hat, j_hat)
+            if what_ == 0:        # roll about i_hat: only j_hat is re-assigned
+                j_hat = k_old.copy() if exact else np.cos(0.7) * j_hat + np.sin(0.7) * k_old
+                j_hat = j_hat / np.linalg.norm(j_hat) if not exact else j_hat
+                cs.j_hat = j_hat
+            elif what_ == 1:      # new frame: both vectors
+                m = signed_perm() if exact else random_orthonormal()
+                i_hat, j_hat = m[0].copy(), m[1].copy()
+                if rng.random() < 0.5:
+                    cs.j_hat = j_hat
+                    cs.i_hat = i_hat
+                else:
+                    cs.i_hat = i_hat
+                    cs.j_hat = j_hat
+            else:                 # origin only
+                origin = dyadic((3,)) if exact else rng.normal(size=3)
+                cs.origin = origin
+            chk.count(cs_history=['j_hat re-assigned', 'i_hat and j_hat re-assigned', 'origin re-assigned'][what_])
+        shape = SHAPES[int(rng.integers(0, len(SHAPES)))]
+        coords = dyadic(shape + (3,)) if exact else rng.normal(size=shape + (3,))
+        fr = cs.convert_from_gcs(g.Points(coords.copy())).coords
+        to = cs.convert_to_gcs(g.Points(coords.copy())).coords
+        bm = cs.basis_matrix
+        k_hat = np.cross(i_hat, j_hat)
+        evaluations += 3
+        if not (np.array_equal(bm[:, 0], i_hat) and np.array_equal(bm[:, 1], j_hat) and np.allclose(bm[:, 2], k_hat, atol=1e-15)):
+            chk.violation("cs-basis-matrix", "basis_matrix does not store i_hat, j_hat, k_hat in columns",
+                          dict(stage=stage, origin=origin, i_hat=i_hat, j_hat=j_hat, basis_matrix=bm, predicate="columns = (i, j, i x j)"), True)
+        back = cs.convert_from_gcs(g.Points(to)).coords
+        sc = max(1.0, float(np.max(np.abs(origin))))
+        if not np.allclose(back, coords, rtol=0, atol=1e-11 * sc):
+            chk.violation("cs-roundtrip", "convert_from_gcs(convert_to_gcs(x)) != x",
+                          dict(stage=stage, origin=origin, i_hat=i_hat, j_hat=j_hat, coords=coords, predicate="round trip"), True)
+        back = cs.convert_to_gcs(g.Points(fr)).coords
+        if not np.allclose(back, coords, rtol=0, atol=1e-11 * sc):
+            chk.violation("cs-roundtrip2", "convert_to_gcs(convert_from_gcs(x)) != x",
+                          dict(stage=stage, origin=origin, i_hat=i_hat, j_hat=j_hat, coords=coords, predicate="round trip"), True)
+        chk.count(cs="E" if exact else "T")
+        for c, a, b in zip(coords.reshape(-1, 3), fr.reshape(-1, 3), to.reshape(-1, 3)):
+            for fn, out in (("cs_from", a), ("cs_to", b)):
+                cs_lines.append(fn + " " + hexs(origin) + " " + hexs(i_hat) + " " + hexs(j_hat) + " " + hexs(c))
+                cs_meta.append(dict(fn=fn, origin=flist(origin), i_hat=flist(i_hat), j_hat=flist(j_hat), c=flist(c), impl=flist(out), exact=exact))
+            if exact:
+                cs_coq.append((cpair(cpair(cv3(origin), cv3(i_hat), cv3(j_hat), cv3(c)), cpair(cv3(a), cv3(b))), cs_meta[-1]))
+            nontrivial.add(("cs", it, stage, tuple(flist(c))))
 # the setters reject non-unit vectors
 for it in range(10 if Q else 60):
     v = rng.normal(size=3)
@@ -638,6 +663,16 @@ for it in range(12 if Q else 300):
     else:
         D = np.zeros((n1, n2))
         g._distance_pairwise(P1.x, P1.y, P1.z, P2.x, P2.y, P2.z, D)
+    # the caller's own table (out=), C-ordered, Fortran-ordered or a strided view: it is the table that must be
+    # filled, with the same values
+    lay = (it // 3) % 3
+    Do = [np.full((n1, n2), -1.0), np.full((n1, n2), -1.0, order="F"), np.full((n1, 2 * n2), -1.0)[:, ::2]][lay]
+    ret = g.distance_pairwise(P1, P2, out=Do, block_size=int(rng.choice([6, 12, 600])))
+    if not np.array_equal(Do, D) or (ret is not None and not np.array_equal(np.asarray(ret), D)):
+        chk.violation("distance-out", "distance_pairwise(out=table) does not fill the table it was given with the distances",
+                      dict(points1=p1, points2=p2, table_after_call=Do, returned=np.asarray(ret), without_out=D,
+                           layout=["C", "F", "strided"][lay], predicate="out[i,j] = |p1[i] - p2[j]|"), True)
+    chk.count(distance_out_layout=["C", "F", "strided"][lay])
     brute = np.sqrt(((p1[:, None, :] - p2[None, :, :]) ** 2).sum(axis=-1))
     evaluations += n1 * n2
     sf = not np.allclose(D, brute, rtol=1e-13, atol=0) or D.shape != (n1, n2)
@@ -646,7 +681,7 @@ for it in range(12 if Q else 300):
     if sf:
         chk.violation("distance-spec", "distance table differs from the Euclidean distance of the pairs",
                       dict(points1=p1, points2=p2, table=D, brute_force=brute, predicate="D[i,j] = |p1[i] - p2[j]|"), True)
-    chk.count(distance=["pythagorean", "dyadic", "random"][kind] + ("/pairwise" if via == 0 else "/kernel"))
+    chk.count(distance=["pythagorean", "dyadic", "random"][kind] + ["/pairwise", "/kernel"][via])
     meta = dict(fn="distance_pairwise", points1=p1.tolist(), points2=p2.tolist(), impl=D.tolist(), spec_failed=sf)
     dist_coq.append((cpair(cpair(clist([cv3(p) for p in p1]), clist([cv3(p) for p in p2])),
                            clist([clist([cfloat(v) for v in row]) for row in D])), meta))
